@@ -87,13 +87,22 @@ package interp
 // representability in the declared result type (non-interface results) before the function is accepted.
 // Per-iteration contract of the loop over the returned expressions (each child is handled by exactly
 // one iteration of the range loop).
+//@ trusted func mustReturnValue(n) (r)
+//@   pure
+//@ trusted func isCall(n) (r)
+//@   pure
+//@ trusted func (t *itype) numOut() (r)
+//@   pure
 //@ lit Interpreter.cfg case:returnStmt () ()
-//@   props C03
+//@   props C03 C12
 //@   opt safety = off
 //@   opt opaque-calls = *
 //@   opt opaque-havoc = none
 //@   opt ignore-contracts = nodeType
+//@   ensures [C12] not-more-results-than-declared: err == nil ==> len(n.child) <= old(sc.def.typ.numOut())
+//@   ensures [C12] enough-results: err == nil && old(mustReturnValue(sc.def.child[2])) && !(len(n.child) == 1 && old(isCall(n.child[0]))) ==> len(n.child) >= old(sc.def.typ.numOut())
 //@   loop 2
+//@   step [C12] result-assignable-to-the-declared-type: err == nil ==> c.typ.assignableTo(typ)
 //@   step constant-result-representable: err == nil && old(c.typ != nil && c.typ.untyped && c.typ.cat != nilT && isC(c.rval)) && typ != nil && !typ.untyped && !isInterface(typ) && basicTarget(typ) ==> representableConst(old(cOf(c.rval)), typ.TypeOf())
 
 // genValueAs (value.go): the operand as a value of type t (returned untyped constants, string range
